@@ -97,7 +97,7 @@ func main() {
 		var files []*ast.File
 		for _, e := range ents {
 			n := e.Name()
-			if !strings.HasSuffix(n, ".go") || strings.HasSuffix(n, "_test.go") || strings.HasSuffix(n, "_verif.go") ||
+			if !strings.HasSuffix(n, ".go") || strings.HasSuffix(n, "_test.go") || strings.HasSuffix(n, "_verif.go") || strings.HasPrefix(n, "zz_verif") || strings.HasPrefix(n, "zz_export_verif") ||
 				strings.HasSuffix(n, "_windows.go") || strings.HasSuffix(n, "_plan9.go") || strings.HasSuffix(n, "_js.go") {
 				continue
 			}
